@@ -155,30 +155,18 @@ def check(ctx, rep):
                    'ItemNode::%s no longer enumerates the declared id list (%s) in order with should_skip consulted: chain %s' % (name, ids_fn, chain))
     # ---- R20.c
     n_agg = 0
+    by_path = {}
+    for g in cli.built:
+        by_path.setdefault(g.npath, []).append(g)
     for f in fns:
         if not f.npath.startswith('crux_cli::codegen::formatter::make_'):
             continue
         params = [i for i in range(1, f.argc + 1) if 'Indexed<' in f.locals[i] and f.locals[i].startswith('&[')]
         for p in params:
             n_agg += 1
-            sinks = flows_to(f, p, extra_identity=[('alloc::slice::<impl [T]>::to_owned', 0), ('alloc::borrow::ToOwned::to_owned', 0),
-                                                   ('core::slice::<impl [T]>::to_vec', 0)], whole_only=True)
-            sorts = [s for s in sinks if s[0] == 'callarg' and re.search(r'::sort(_by|_by_key|_unstable\w*)?$', norm(s[2].get('callee') or ''))]
-            iters = [s for s in sinks if s[0] == 'callarg' and last_seg(s[2].get('callee') or '') in ('iter', 'into_iter', 'len', 'index', 'first', 'last', 'get')]
-            btree = [1 for bb, t in f.calls('alloc::collections::btree::map::BTreeMap::insert')]
+            verdict, why = sorted_or_keyed(by_path, f, p)
             key = '%s|param%d' % (f.kpath, p)
-            if sorts:
-                sb = sorts[0][1]
-                ok = all(f.dominates(sb, s[1]) and s[1] != sb for s in iters if s[1] != sb) and bool(iters)
-                rep.expect('R20.c', ok, key, 'sorted by index before it is read',
-                           '%s reads its aggregated Indexed tuples before (or without) sorting them' % f.path)
-            elif btree:
-                ins = [(bb, t) for bb, t in f.calls('alloc::collections::btree::map::BTreeMap::insert')]
-                keyed = all(any(o.suffix and o.suffix[-1] == '.index' for o in origins(f, t['args'][1])) for bb, t in ins)
-                rep.expect('R20.c', keyed, key, 'inserted into a BTreeMap keyed by the index',
-                           '%s inserts aggregated tuples into a map that is not keyed by their index' % f.path)
-            else:
-                rep.bad('R20.c', key, '%s uses aggregated Indexed tuples in relation order (neither sorted nor keyed by index)' % f.path)
+            rep.expect('R20.c', verdict, key, why, '%s: %s' % (f.path, why))
     if n_agg < 5:
         rep.bad('R20.c', 'sites', 'expected at least 5 helpers receiving aggregated Indexed tuples, found %d' % n_agg)
     # ---- R20.d
@@ -196,6 +184,38 @@ def check(ctx, rep):
                'ContainerFormat::Enum is no longer a BTreeMap keyed by the variant index')
     rep.assume('ascent evaluates relations with set semantics to a fixpoint: derived relations do not depend on tuple order')
     rep.assume('NOT DECIDED: closedness, agreement with serde-reflection tracing, crate loading order, name clashes')
+
+
+OWNED = [('alloc::slice::<impl [T]>::to_owned', 0), ('alloc::borrow::ToOwned::to_owned', 0), ('alloc::slice::<impl [T]>::to_vec', 0)]
+
+
+def sorted_or_keyed(by_path, f, p, depth=0):
+    """the slice of aggregated Indexed tuples in parameter p is sorted before it is read, or inserted into a BTreeMap keyed by the
+    index, or handed as a whole to a local helper for which the same holds"""
+    sinks = flows_to(f, p, extra_identity=OWNED, whole_only=True)
+    sorts = [s for s in sinks if s[0] == 'callarg' and re.search(r'::sort(_by|_by_key|_unstable\w*)?$', norm(s[2].get('callee') or ''))]
+    iters = [s for s in sinks if s[0] == 'callarg' and last_seg(s[2].get('callee') or '') in ('iter', 'into_iter', 'len', 'index', 'first', 'last', 'get')]
+    ins = [(bb, t) for bb, t in f.calls('alloc::collections::btree::map::BTreeMap::insert')]
+    if sorts:
+        sb = sorts[0][1]
+        ok = all(f.dominates(sb, s[1]) and s[1] != sb for s in iters if s[1] != sb) and bool(iters)
+        return ok, ('sorted by index before it is read' if ok else 'reads its aggregated Indexed tuples before (or without) sorting them')
+    if ins:
+        keyed = all(any(o.suffix and o.suffix[-1] == '.index' for o in origins(f, t['args'][1])) for bb, t in ins)
+        return keyed, ('inserted into a BTreeMap keyed by the index' if keyed else 'inserts aggregated tuples into a map that is not keyed by their index')
+    if depth < 2:
+        helpers = []
+        for s in sinks:
+            if s[0] == 'callarg':
+                c = s[2].get('resolved') or s[2].get('callee')
+                for g in by_path.get(norm(c or ''), []):
+                    helpers.append((g, s[3] + 1))
+        if helpers and not iters:
+            res = [sorted_or_keyed(by_path, g, k, depth + 1) for g, k in helpers]
+            if all(r[0] for r in res):
+                return True, 'handed to %s, where it is %s' % (helpers[0][0].name, res[0][1])
+            return False, 'handed to %s, which %s' % (helpers[0][0].name, [r[1] for r in res if not r[0]][0])
+    return False, 'uses aggregated Indexed tuples in relation order (neither sorted nor keyed by index)'
 
 
 # ---------------------------------------------------------------------------------------------------
